@@ -157,17 +157,19 @@ func c06DirtyBuffer() gopacket.SerializeBuffer {
 # not triaged (oracle question open: FCS/padding/option semantics) or whose
 # exploration does not fit the budgets.  They are NOT claimed by C06/C07.
 C06_NOT_CLAIMED = {
-    "Dot11": "payload differs after the round trip (FCS handling); not triaged",
+    "Dot11": "the decoder strips a 4-octet frame check sequence that the serializer does not write, so written bytes decode with an error or a shorter payload; whether the caller is meant to append the FCS is an open oracle question",
     "RadioTap": "payload differs after the round trip (FCS re-computation) and the decoder still has known C19 defects; not triaged",
-    "GTPv1U": "extension-header fields differ after the round trip; not triaged",
-    "Geneve": "option fields differ after the round trip; not triaged",
     "DNS": "exploration does not complete within the budgets (string handling)",
 }
 
 
-def ser_types(enum):
+def ser_types(enum, excluded=None):
     e = enum(MOD + "/layers")["types"]
-    return [x for x in e if x["Decode"] and x["Serialize"] and "DecodeFeedback" in x["DecodeSig"] and x["Name"] not in C06_NOT_CLAIMED]
+    if excluded is None:
+        excluded = C06_NOT_CLAIMED
+    if os.environ.get("VERIF_CLAIM_ALL"):
+        excluded = {}
+    return [x for x in e if x["Decode"] and x["Serialize"] and "DecodeFeedback" in x["DecodeSig"] and x["Name"] not in excluded]
 
 
 def gen_c06(tier, enum):
@@ -253,13 +255,20 @@ def gen_c06(tier, enum):
     return [("layers", "c06gen.go", "\n".join(out))]
 
 
+# C07's oracle (no panic, bytes independent of the buffer's past) has no open
+# question for Dot11, GTPv1U and Geneve, so C07 claims them; RadioTap's decoder
+# still panics (C19 known findings) and DNS does not decode within the budgets
+C07_NOT_CLAIMED = {k: v for k, v in C06_NOT_CLAIMED.items() if k in ("RadioTap", "DNS")}
+C07_RANGE = {"Dot11": {"quick": (10, 34), "thorough": (0, 40)}}
+
+
 def gen_c07(tier, enum):
     n = 14 if tier == "quick" else 24
     n = int(os.environ.get("VERIF_C06_N", n))
     out = ["package layers", "", 'import (', '\t"bytes"', '\t"net"', "", '\t"github.com/gopacket/gopacket"', ")", "", "var _ = bytes.Equal", C06_COMMON]
-    for x in ser_types(enum):
+    for x in ser_types(enum, C07_NOT_CLAIMED):
         T = x["Name"]
-        lo, nn = c06_range(T, tier, n)
+        lo, nn = C07_RANGE.get(T, {}).get(tier) or c06_range(T, tier, n)
         setnet = "\tl.SetNetworkLayerForChecksum(c06Net4)\n" if x["SetNet"] else ""
         c07csum = "false" if tier == "quick" else "verifChoose(2) == 1"
         c07pay = "[]byte(nil)" if T in C06_PAYLOAD_INSIDE else "l.LayerPayload()"
@@ -438,7 +447,7 @@ PROPS = {
         "generate": gen_c06,
         "must_reach_all": ["decoded"],
         "bounds": "every claimed type with both DecodeFromBytes and SerializeTo: layer obtained by decoding n symbolic bytes (n symbolic; quick: 0..14, or min..min+4 for the 21 types whose fixed header is longer than that (props.C06_MIN, e.g. IPv4 20..24, IPv6 40..44, DHCPv4 240..244), 0..8 for the IPv6 hop-by-hop/destination headers; thorough: 0..24, or 0..min+8), written over its payload with FixLengths (and ComputeChecksums in thorough; checksum values themselves are C08's subject), decoded again, then written once more; compared: all exported fields except length/checksum fields that SerializeTo is documented to rewrite (lists element-wise in order), payload, error, truncation flag; every unit must reach a successful decode (label decoded) or the run is inconclusive",
-        "outside": "layers built from in-range field values rather than by decoding; stacks through SerializeLayers; payloads > 64 KiB; layer types Dot11, RadioTap, GTPv1U, Geneve, DNS (counterexamples not triaged or exploration too large: not claimed, see props.C06_NOT_CLAIMED)",
+        "outside": "layers built from in-range field values rather than by decoding; stacks through SerializeLayers; payloads > 64 KiB; layer types Dot11, RadioTap, DNS (oracle question open or exploration too large: not claimed, see props.C06_NOT_CLAIMED)",
         "quick": {"timeout": 500, "qtimeout": 20000, "fbtimeout": 60000, "maxpaths": 200, "partial_ok_all": True, "unsupported_ok": True},
         "thorough": {"timeout": 5000, "maxpaths": 3000, "partial_ok_all": True, "unsupported_ok": True},
     },
@@ -447,7 +456,7 @@ PROPS = {
         "generate": gen_c07,
         "must_reach_all": ["decoded"],
         "bounds": "every claimed type with both DecodeFromBytes and SerializeTo: layer decoded from n symbolic bytes (same length ranges as C06), FixLengths on/off (ComputeChecksums on/off as well in thorough); serialized into a fresh buffer, a buffer that held 64 symbolic garbage bytes and was cleared, and a pre-sized buffer (hints 0..2); outputs compared bytewise; ARP: the two address-size octets are enumerated 0..3 instead of symbolic; every unit must reach a successful decode",
-        "outside": "layer values built through public fields without decoding; layer types Dot11, RadioTap, GTPv1U, Geneve, DNS (not claimed, as in C06)",
+        "outside": "layer values built through public fields without decoding; layer types RadioTap (its decoder still panics, C19 known findings) and DNS (does not decode within the budgets) are not claimed",
         "quick": {"timeout": 500, "qtimeout": 20000, "fbtimeout": 60000, "maxpaths": 200, "partial_ok_all": True, "unsupported_ok": True},
         "thorough": {"timeout": 5000, "maxpaths": 3000, "partial_ok_all": True, "unsupported_ok": True},
     },
